@@ -19,15 +19,16 @@ I(o, d, s, f, m) == [opc |-> o, dst |-> d, src |-> s, off |-> f, imm |-> m]
 (***************************************************************************)
 (* Slot encoding (little-endian).  Bytes are 0..255.                       *)
 (***************************************************************************)
-\* byte k (0..3) of a signed 32-bit integer in two's complement
+\* byte k (0..3) of a signed 32-bit integer in two's complement (divisors spelled out: the proof
+\* backends used by IsaProofs.tla do not know exponentiation)
 ImmByte(m, k) ==
   LET u3 == IF m >= 0 THEN m \div 16777216 ELSE 255 - ((-(m+1)) \div 16777216)   \* top byte
       lo == IF m >= 0 THEN m % 16777216 ELSE 16777215 - ((-(m+1)) % 16777216)   \* low 24 bits
-  IN  IF k = 3 THEN u3 ELSE (lo \div 256^k) % 256
+  IN  IF k = 3 THEN u3 ELSE IF k = 0 THEN lo % 256 ELSE IF k = 1 THEN (lo \div 256) % 256 ELSE (lo \div 65536) % 256
 
 OffByte(f, k) ==
   LET u == IF f >= 0 THEN f ELSE f + 65536
-  IN  (u \div 256^k) % 256
+  IN  IF k = 0 THEN u % 256 ELSE (u \div 256) % 256
 
 Encode(i) == << i.opc, i.src * 16 + i.dst,
                 OffByte(i.off, 0), OffByte(i.off, 1),
